@@ -82,7 +82,7 @@ PROPS = {
     },
     "C15": {
         "generators": [{"name": "C15"}],
-        "explanation": "DBProofsCompact.v: files_exact preserved, compact_removes_files, dir_exact; usability after compaction follows from put_ok/delete_ok/sync_ok/close_ok on the invariant state. Tie: churn with Compact and restarts, directory listing and handle counts compared with the model; ConstsCheck.remove_segment_ext.",
+        "explanation": "DBProofsCompact.v: files_exact preserved, compact_removes_files, dir_exact; usability after compaction follows from put_ok/delete_ok/sync_ok/close_ok on the invariant state. DBProofsCompactFix.v: after a quiescent Compact every file belongs to a live segment or is a fixed file, the files of every eligible segment are gone, at most the formerly open segment can be eligible again; two Compacts always reach the fixpoint where every segment is small or dense (one does not: refutation witness, replayed on the code). Tie: churn with Compact and restarts, directory listing and handle counts compared with the model; ConstsCheck.remove_segment_ext.",
         "assumptions": COMMON_ASSUME,
     },
     "C16": {
